@@ -178,7 +178,7 @@ def run(tier):
     v = Verdict("C16", "exploration", tier)
     cli = common.build_cli()
     drv = common.build_driver()
-    n = 300 if tier == "quick" else 4000
+    n = 300 if tier == "quick" else 15000
     base = common.seed() * 16000057
     jobs = [(cli, drv, i, base + i, "none" if i % 2 == 0 else "zod") for i in range(n)]
     res = common.pmap(run_case, jobs, chunksize=2)
